@@ -14,10 +14,6 @@ NOT_APPLICABLE = {
            'ConnectionId = Arc<Mutex>); no function contract within reach states "exactly one reply".',
     'C06': 'quantifies over schedules of async tasks; Kani has no scheduler/thread model, Verus would need '
            'permission-typed futures; no per-function contract expresses absence of lost wake-ups.',
-    'C09': 'teardown (shutdown_connection, remove_* helpers: for-loops over impl Iterator) and the statistics counters '
-           '(cfg(feature) code, dropped by the extraction) are outside Verus\'s subset; "no residual state" is a whole-broker '
-           'invariant. Leaf facts proved elsewhere: State queues are LIFO (unit broker_state, under C02), live connection ids '
-           'are pairwise distinct (unit broker_conn_id, under C05).',
     'C11': 'panic-freedom of ~40 expect("inconsistent state") sites is a corollary of a whole-broker invariant over the '
            'handler layer, most of which is outside Verus\'s subset. Proved elsewhere, for the verified handlers only: all '
            'unreachable!/debug_assert! of channel.rs and the calls into them (C05), the expect() sites of '
